@@ -666,6 +666,16 @@ _INLINE_CACHE = {}
 _INLINE_OFF = [0]  # >0: helper inlining disabled (partial evaluation wants the calls themselves)
 
 
+class no_inline:
+    """context manager: inside, calls to new helper functions are kept as calls (not replaced by their values)"""
+
+    def __enter__(self):
+        _INLINE_OFF[0] += 1
+
+    def __exit__(self, *a):
+        _INLINE_OFF[0] -= 1
+
+
 def known_functions():
     global _KNOWN_FNS
     if _KNOWN_FNS is None:
